@@ -77,19 +77,43 @@ Proof.
 Qed.
 
 (* Decoder lookup by hint finds the registered entry with the same type and major version and the highest
-   registered version: for EVERY history of Add / Find / FindByString / FindBytType / FindBytTypeString on a
-   new set (cache on or off), every Find and every FindByString whose text parses answers
+   registered version.
+
+   PLANNED statement (DESIGN section 6 C31, properties.jsonl): for EVERY history, unconditionally.
+   That statement is FALSE of the faithful model and of the code: C31_find_is_highest_refuted below.
+   What is proved is the restricted statement C31_find_is_highest_partial, whose hypothesis [disciplined]
+   delimits the finding class: hints of the history with equal String() have equal (type, major), and a
+   FindByString text that is the String() of a hint of the history parses to that (type, major).
+   For valid hints this is a consequence of C31_roundtrip / C31_print_injective; it can only fail when an
+   INVALID Hint object is handed to Add/Find (known finding class lookup-poisoned-by-invalid-hint-string).
+
+   For every disciplined history of Add / Find / FindByString / FindBytType / FindBytTypeString on a new
+   set (cache on or off), every Find and every FindByString whose text parses answers
      found = true  with the value of a registered entry of that (type, major) such that no registered entry
                    of that (type, major) has a higher version, or
      found = false when nothing is registered under that (type, major);
    FindByString answers an error exactly when the text does not parse; only valid hints get registered.
-   (registered = the Adds that returned nil so far; [trace_ok], [lookup_ok], [is_highest] in ProofsSet.v.)
-   Hypothesis [disciplined]: hints of the history with equal String() have equal (type, major), and a text
-   that is the String() of a hint of the history parses to that (type, major) -- which C31_roundtrip /
-   C31_print_injective give for valid hints. *)
-Theorem C31_find_is_highest : forall parse size ops, disciplined parse ops ->
+   (registered = the Adds that returned nil so far; [trace_ok], [lookup_ok], [is_highest] in ProofsSet.v.) *)
+Theorem C31_find_is_highest_partial : forall parse size ops, disciplined parse ops ->
   trace_ok parse [] ops (snd (run parse (cs_new size) ops)).
 Proof. exact find_is_highest. Qed.
+
+(* the witness: Add(abc-v2.0.0, 7); Find(NewHint("abc-v2", v1.0.0)) -- an invalid hint whose String() is
+   "abc-v2-v1.0.0" -- caches `false` under that text; FindByString("abc-v2-v1.0.0"), which parses to
+   abc / v2.0.0-v1.0.0 (major 2, registered), then answers not found.  Reproduced on the real code. *)
+Definition rf_reg := mkSHint "abc" (mkVer 2 0 0 "") "abc-v2.0.0" true.
+Definition rf_bad := mkSHint "abc-v2" (mkVer 1 0 0 "") "abc-v2-v1.0.0" false.
+Definition rf_parsed := mkSHint "abc" (mkVer 2 0 0 "v1.0.0") "abc-v2.0.0-v1.0.0" true.
+Definition rf_parse (s : string) : option shint :=
+  if String.eqb s "abc-v2-v1.0.0" then Some rf_parsed else None.
+Definition rf_ops := [OAdd rf_reg 7; OFind rf_bad; OFindStr "abc-v2-v1.0.0"]%N.
+
+Theorem C31_find_is_highest_refuted :
+  exists parse size ops, ~ trace_ok parse [] ops (snd (run parse (cs_new size) ops)).
+Proof.
+  exists rf_parse, 10%Z, rf_ops. vm_compute.
+  intros (_ & _ & (_ & _ & N) & _). specialize (N rf_reg 7%N (or_introl eq_refl)). apply N. reflexivity.
+Qed.
 
 (* ---------------------------------------------------------------- non-vacuity *)
 
